@@ -180,22 +180,34 @@ impl DftBuf {
 }
 
 /// Scratch window of exactly `len` usable bytes, flush against the end of its allocation.
+/// With `off > 0` the slice handed to the library starts `off` bytes past a 64-byte boundary (an arbitrary user slice given to
+/// `Scratch::from_bytes`): it is `pad + len` bytes long with `pad = 64 - off`, so that exactly `len` bytes remain after the
+/// library's own re-alignment.
 pub struct ScratchWin {
     pub g: Guarded,
+    pub off: usize,
 }
 
 impl ScratchWin {
     pub fn new(len: usize) -> Self {
-        ScratchWin { g: Guarded::new(len, false) }
+        ScratchWin { g: Guarded::new(len, false), off: 0 }
     }
     pub fn new_uninit(len: usize) -> Self {
-        ScratchWin { g: Guarded::new_uninit(len) }
+        ScratchWin { g: Guarded::new_uninit(len), off: 0 }
+    }
+    pub fn new_misaligned(len: usize, off: usize) -> Self {
+        let off = off % 64;
+        if off == 0 {
+            return Self::new(len);
+        }
+        ScratchWin { g: Guarded::new(64 + len, false), off }
     }
     pub fn fill(&mut self, rng: &mut Rng) {
         self.g.fill_random(rng);
     }
     pub fn scratch(&mut self) -> &mut Scratch<BE> {
-        Scratch::<BE>::from_bytes(self.g.bytes_mut())
+        let off = self.off;
+        Scratch::<BE>::from_bytes(&mut self.g.bytes_mut()[off..])
     }
 }
 
